@@ -11,7 +11,9 @@ use crate::monitors::{MonCfg, Violation};
 use crate::scenario::{Fault, GenBias, Scenario};
 use crate::sim::{RunResult, World};
 
-pub const VERIF_DIR: &str = "/verif";
+/// Root of the verification tree: $VERIF_ROOT when set by bin/check (so that a snapshot run writes
+/// into its own tree), /verif otherwise.
+pub fn verif_dir() -> String { std::env::var("VERIF_ROOT").unwrap_or_else(|_| "/verif".to_string()) }
 
 pub struct RunOutcome {
     pub run: u64,
@@ -54,7 +56,7 @@ pub struct KnownFinding {
 }
 
 pub fn load_known_findings() -> Vec<KnownFinding> {
-    let path = format!("{}/KNOWN_FINDINGS.json", VERIF_DIR);
+    let path = format!("{}/KNOWN_FINDINGS.json", verif_dir());
     let s = match std::fs::read_to_string(&path) {
         Ok(s) => s,
         Err(_) => return vec![],
@@ -292,7 +294,7 @@ pub fn minimise(sc: &Scenario, prop: &str, mon: &MonCfg, class: &str, taken: &BT
 }
 
 pub fn write_replay(prop: &str, sc: &Scenario, v: &Violation, minimised: bool) -> String {
-    let dir = format!("{}/replays", VERIF_DIR);
+    let dir = format!("{}/replays", verif_dir());
     let _ = std::fs::create_dir_all(&dir);
     let path = format!("{}/{}-{}-{}.json", dir, prop, sc.seed, sc.run);
     let j = json!({
@@ -320,7 +322,7 @@ pub fn replay_file(path: &str, mon_override: Option<MonCfg>) -> Result<(String, 
 }
 
 pub fn write_evidence(prop: &str, tier: &str, seed: u64, agg: &Agg, wall_s: f64, violations: u64, extra: Value, rule: &str, assumptions: &[&str]) {
-    let dir = format!("{}/evidence", VERIF_DIR);
+    let dir = format!("{}/evidence", verif_dir());
     let _ = std::fs::create_dir_all(&dir);
     let runs_per_hour = if wall_s > 0.0 { (agg.runs as f64 / wall_s * 3600.0) as u64 } else { 0 };
     let probes_zero: Vec<&str> = crate::props::EXPECTED_PROBES.iter().copied().filter(|p| !agg.probes.contains_key(*p)).collect();
